@@ -11,7 +11,9 @@ from ..sched import layers as LY
 LEVEL = 'exploration'
 
 STRINGS = [None, '', 'a', ';', '"', 'a;b', '"q"', 'x\ny', 'x\r\ny', ' lead', 'ünï', '﻿b', "'", ',', 'tail ', '""', 'a"b;c\n"',
-           'a\n\nb', 'a\r\n\r\nb', 'a\n \nb', '\nlead-break', 'tail-break\n', '\n', ' ', '\t']
+           'a\n\nb', 'a\r\n\r\nb', 'a\n \nb', '\nlead-break', 'tail-break\n', '\n', ' ', '\t',
+           # texts a spreadsheet would take for formulas, and the same behind an apostrophe
+           '=1+1', '+x', '-1 day', '@ops', "'=SUM", "'-1 day' buffer", "'@ops", "'+", "'", "''"]
 DATES = [None, datetime(1969, 1, 1), datetime(2024, 2, 29), datetime(2068, 12, 31)]
 NUMS = [None, 0, 2.5, 10, 0.1 + 0.2, 1 / 3, 12500.25, 1234567, 1e-07]
 IDS = [0, -1, 1, 2, 10]
